@@ -43,6 +43,11 @@ def cases(rng, tier):
                                 b"path=C:\\;mode=rw", b"a\\;b=c", b"k=\\", b"\\;", b"k=\\;", b'q="', b'k=""', b'k="v;w"', b"k=a\\=b;c"])
             strs.append(s[:255])
         out.append("TXTATTR " + " ".join(["%x" % len(strs)] + [(x.hex() or "-") for x in strs]))
+    # one multi-byte character spread over several character-strings (also around an empty one, also never completed), behind a
+    # first string of up to 255 octets: the join is defined on the concatenation
+    import hostile
+    for strs in hostile.SPLITS:
+        out.append("TXTATTR " + " ".join(["%x" % len(strs)] + [(x.hex() or "-") for x in strs]))
     # maps
     for _ in range(1500 if tier == "quick" else 15000):
         m = {}
